@@ -337,4 +337,20 @@ theorem compress_length_le {α : Type} : ∀ (m : List Bool) (xs : List α), (co
       · simp only [compress, Bool.false_eq_true, if_false, List.length_cons]; have := ih xs; omega
       · simp only [compress, if_true, List.length_cons]; have := ih xs; omega
 
+theorem compress_length_eq {α β : Type} : ∀ (m : List Bool) (xs : List α) (ys : List β),
+    xs.length = ys.length → (compress m xs).length = (compress m ys).length := by
+  intro m; induction m with
+  | nil => intro xs ys _; simp [compress]
+  | cons a as ih =>
+    intro xs ys h
+    cases xs with
+    | nil => cases ys with
+      | nil => simp [compress]
+      | cons _ _ => simp at h
+    | cons x xs => cases ys with
+      | nil => simp at h
+      | cons y ys =>
+        simp only [List.length_cons, Nat.add_right_cancel_iff] at h
+        cases a <;> simp [compress, ih xs ys h]
+
 end PlinioVerif.PIT
